@@ -161,7 +161,9 @@ class MirFile:
         self._fn_cache = {}
         for i, l in enumerate(self.lines):
             if l.startswith("fn ") and l.endswith("{"):
-                self.index.setdefault(l, i)
+                if l in self.index:
+                    continue            # const fns are printed twice (runtime MIR and CTFE MIR): keep the first
+                self.index[l] = i
                 self.by_name.setdefault(_last_segment(l[3:_arglist_start(l)]), []).append(l)
 
     def find(self, header_regex, which=0):
@@ -206,7 +208,7 @@ class MirFile:
                 return None
         if len(cands) > 1:
             hints = [seg for seg in c.split("::")[:-1] if seg]
-            scored = sorted(((sum(1 for hseg in hints if hseg in h), h) for h in cands), reverse=True)
+            scored = sorted(((sum(1 for hseg in hints if re.search(r"\b%s\b" % re.escape(hseg), h)), h) for h in cands), reverse=True)
             if len(scored) > 1 and scored[0][0] == scored[1][0]:
                 return None
             cands = [scored[0][1]]
